@@ -78,7 +78,9 @@ func c03Names(r *vRng, thorough bool) []string {
 }
 
 func runC03(em *vEmitter, r *vRng) {
-	names := c03Names(r, vThorough())
+	// valid names first: the footprint clause holds for every name - an operation on <name> touches
+	// <name>.user / <name>.admin only, also when other users' names extend it with a dot
+	names := append([]string{"alice", "al", "alice.smith", "nobody", "bob", "alice.admin"}, c03Names(r, vThorough())...)
 	const per = 12
 	for start := 0; start < len(names); start += per {
 		end := start + per
@@ -100,6 +102,11 @@ func runC03(em *vEmitter, r *vRng) {
 		h.plant("root", true, ps[0], 1600000000, r.bytes(16), []byte("rootpw"), "\n", nil)
 		h.plant("alice", false, ps[0], 1600000001, r.bytes(16), []byte("alicepw"), "\n", []byte("totp: x\n"))
 		h.plant("bob", false, ps[0], 1600000002, r.bytes(16), []byte("pw"), "\n", nil)
+		// users whose names extend another user's name with a dot ('.' is a legal name character), one of
+		// them literally called like another user's admin file
+		h.plant("alice.smith", false, ps[0], 1600000004, r.bytes(16), []byte("smithpw"), "\n", nil)
+		h.plant("alice.admin", false, ps[0], 1600000005, r.bytes(16), []byte("pw5"), "\n", nil)
+		h.plant("bob.x", true, ps[0], 1600000006, r.bytes(16), []byte("pw6"), "\n", nil)
 		// well-formed records under names outside the grammar, enumerated among the valid ones: they
 		// are nobody's account, whatever the listing order
 		for k, bad := range []string{"-x", ".hid", "ro ot", "\u0430dmin", "_u", "@u", "zz\x01"} {
